@@ -50,12 +50,30 @@ def cases(rng, tier):
         out.append({"kind": "damage", "arc": a, "ops": ops})
     root = os.environ.get("VERIF_REPO", "/repo")
     for fn, expect in [("encrypted_1.7z", "password"), ("encrypted_3.7z", "password"), ("filename_encryption.7z", "password"), ("lz4.7z", "unsupported"), ("lzma_bcj2_1.7z", "unsupported"),
-                       ("test_1.7z", "ok"), ("solid.7z", "ok"), ("copy.7z", "ok"), ("crc_corrupted.7z", "damaged"), ("data_corrupted.7z", "damaged")]:
+                       ("test_1.7z", "ok"), ("solid.7z", "ok"), ("copy.7z", "ok"), ("crc_corrupted.7z", "damaged"), ("data_corrupted.7z", "damaged"),
+                       # intact archives without any packed stream (no members, or directories and empty files only)
+                       ("empty.7z", "ok"), ("test_folder.7z", "ok"), ("hidden_linux_file.7z", "ok"), ("hidden_linux_folder.7z", "ok")]:
         p = os.path.join(root, "tests", "data", fn)
         if os.path.exists(p):
             out.append({"kind": "fixture", "path": p, "expect": expect})
     out.append({"kind": "info"})
+    # 'a' on something that is not (any more) an archive it can append to: non-zero, and the file stays as it was
+    for how in ("flip-end-header", "flip-start-header", "cut-tail", "text-file"):
+        out.append({"kind": "append-bad", "how": how})
+    out.append({"kind": "volume-zero"})
     return out
+
+
+def _listing(data):
+    import io
+
+    import py7zr
+
+    try:
+        with py7zr.SevenZipFile(io.BytesIO(data)) as z:
+            return z.getnames()
+    except Exception as e:
+        return "unreadable: %s" % type(e).__name__
 
 
 def _cli(args, cwd, obs, timeout=120):
@@ -211,6 +229,47 @@ def run_case(case):
                     elif not intact and rc == 0:
                         viol.append({"key": "zero-for-damaged/%s/%s" % (cmd, op[0]), "what": "%s damaged by %r (library extraction fails or differs): py7zr %s exits 0" % (a["label"], op, cmd)})
             sample = {"kind": "damage", "archive": a["label"], "ops": case["ops"][:3]}
+        elif case["kind"] == "append-bad":
+            work = os.path.join(d, "w")
+            os.makedirs(os.path.join(work, "tree"))
+            with open(os.path.join(work, "tree", "keep.txt"), "wb") as f:
+                f.write(b"keep me " * 50)
+            with open(os.path.join(work, "new.txt"), "wb") as f:
+                f.write(b"new")
+            rc, so, se = _cli(["c", "x.7z", "tree"], work, obs)
+            p_ = os.path.join(work, "x.7z")
+            data = bytearray(open(p_, "rb").read())
+            if case["how"] == "flip-end-header":
+                data[-5] ^= 0xFF
+            elif case["how"] == "flip-start-header":
+                data[20] ^= 0xFF
+            elif case["how"] == "cut-tail":
+                del data[-10:]
+            else:
+                data = bytearray(b"this is a text file that happens to be called x.7z\n")
+            with open(p_, "wb") as f:
+                f.write(data)
+            rc, so, se = _cli(["a", "x.7z", "new.txt"], work, obs)
+            now = open(p_, "rb").read()
+            cells.add("append-bad|%s|rc%s" % (case["how"], rc))
+            obs["damaged_archives_judged"] += 1
+            if rc == 0:
+                viol.append({"key": "zero-for-damaged/a/%s" % case["how"], "what": "py7zr a on an archive damaged by %s exits 0; the file now holds %r" % (case["how"], _listing(now))})
+            elif now != bytes(data):
+                viol.append({"key": "append-modifies-despite-error/%s" % case["how"], "what": "py7zr a exits %s but the file changed" % rc})
+            sample = {"kind": "append-bad", "how": case["how"], "rc": rc}
+        elif case["kind"] == "volume-zero":
+            work = os.path.join(d, "w")
+            os.mkdir(work)
+            with open(os.path.join(work, "payload.bin"), "wb") as f:
+                f.write(os.urandom(3000))
+            rc, so, se = _cli(["c", "-v", "0", "vol.7z", "payload.bin"], work, obs)
+            left = sorted(os.listdir(work))
+            cells.add("volume-zero|rc%s" % rc)
+            obs["volume_sizes_tried"] += 1
+            if rc == 0 or len(left) > 3:
+                viol.append({"key": "volume-size-zero", "what": "py7zr c -v 0 exits %s and leaves %d files" % (rc, len(left))})
+            sample = {"kind": "volume-zero", "rc": rc}
         elif case["kind"] == "fixture":
             for cmd in ("t", "x"):
                 args = [cmd, case["path"]] + ([os.path.join(d, "fx")] if cmd == "x" else [])
